@@ -25,6 +25,36 @@ fn f64_key(n: &Number) -> u64 {
     if bits >> 63 == 1 { !bits } else { bits | (1 << 63) }
 }
 
+/// exact value of a finite number as (negative, mantissa, binary exponent); None for NaN / infinities
+fn exact_mag(n: &Number) -> Option<(bool, u128, i32)> {
+    Some(match n {
+        Number::Int64(i) => (*i < 0, i.unsigned_abs() as u128, 0),
+        Number::UInt64(u) => (false, *u as u128, 0),
+        Number::Float64(f) => {
+            if !f.is_finite() { return None; }
+            let bits = f.to_bits();
+            let (e, m) = (((bits >> 52) & 0x7ff) as i32, bits & ((1u64 << 52) - 1));
+            if e == 0 { (bits >> 63 == 1, m as u128, -1074) } else { (bits >> 63 == 1, (m | (1 << 52)) as u128, e - 1075) }
+        }
+    })
+}
+
+fn exact_cmp(p: (bool, u128, i32), q: (bool, u128, i32)) -> std::cmp::Ordering {
+    let mag = |a: (u128, i32), b: (u128, i32)| -> std::cmp::Ordering {
+        if a.0 == 0 || b.0 == 0 { return a.0.cmp(&b.0); }
+        // both mantissas are below 2^64: shifting by up to 63 is exact in u128; beyond that the higher exponent wins
+        if a.1 >= b.1 { if a.1 - b.1 > 63 { Greater } else { (a.0 << (a.1 - b.1)).cmp(&b.0) } }
+        else if b.1 - a.1 > 63 { Less } else { a.0.cmp(&(b.0 << (b.1 - a.1))) }
+    };
+    let (zp, zq) = (p.1 == 0, q.1 == 0);
+    match (p.0 && !zp, q.0 && !zq) {
+        (false, true) => Greater,
+        (true, false) => Less,
+        (false, false) => mag((p.1, p.2), (q.1, q.2)),
+        (true, true) => mag((q.1, q.2), (p.1, p.2)),
+    }
+}
+
 /// class of the first difference met when walking two documents in the order `compare` does
 fn first_diff(a: &Value, b: &Value) -> Option<&'static str> {
     first_diff_at(a, b, 0)
@@ -37,12 +67,21 @@ fn first_diff_at(a: &Value, b: &Value, depth: usize) -> Option<&'static str> {
     }
     match (a, b) {
         (Value::Number(x), Value::Number(y)) => {
-            if x.cmp(y) != Equal {
-                if f64_key(x) == f64_key(y) { Some("number-f64-collision") } else { Some("number") }
-            } else if f64_key(x) != f64_key(y) {
-                Some("signed-zero")
-            } else {
-                None
+            // the classes of the known findings are decided by an exact comparison of the harness' own, never by the
+            // crate's `Number::cmp` (a defect there must not be filed under a known finding)
+            match (exact_mag(x), exact_mag(y)) {
+                (Some(p), Some(q)) => {
+                    if exact_cmp(p, q) != Equal {
+                        if f64_key(x) == f64_key(y) { Some("number-f64-collision") } else { Some("number") }
+                    } else if p.1 == 0 && q.1 == 0 && f64_key(x) != f64_key(y) {
+                        Some("signed-zero")
+                    } else if f64_key(x) != f64_key(y) {
+                        Some("number")
+                    } else {
+                        None
+                    }
+                }
+                _ => if f64_key(x) != f64_key(y) { Some("number") } else { None },
             }
         }
         (Value::String(x), Value::String(y)) => str_diff(x.as_bytes(), y.as_bytes(), depth),
